@@ -268,7 +268,8 @@ def cases(tier):
     meshes = ['tq', 'tri'] if q else ['tq', 'tri', 'tqp', 'fan']
     for mesh in meshes:
         for mo in (dict(), dict(start_index=1, fill='attr'), dict(transposed=True, coords_as_coords=False),
-                   dict(start_index=1, fill='attr', fill_value=0), dict(start_index=1, fill='attr', fill_value=0, dtype='uint16')):
+                   dict(start_index=1, fill='attr', fill_value=0), dict(start_index=1, fill='attr', fill_value=0, dtype='uint16'),
+                   dict(start_index=0, start_index_as_text=True), dict(start_index=1, fill='attr', start_index_as_text=True)):
             if mesh in ('fan', 'tri') and mo.get('fill') == 'attr':
                 mo = dict(mo, fill='none')
             tag = '+'.join(f'{k}={v}' for k, v in mo.items()) or 'default'
